@@ -61,8 +61,7 @@ Arguments FidMap {V}. Arguments fid_m {V}. Arguments fid_all {V}.
 
 Definition fid_empty {V} : fidmap V := FidMap [] [].
 
-(* Get: `if int(id) >= len(fd.m) { return nil }; return fd.m[id]`.  A negative id indexes out of range (Go panics); it cannot
-   be passed through StructDescriptor.FieldById, whose argument is a uint16. *)
+(* Get: `if id < 0 || int(id) >= len(fd.m) { return nil }; return fd.m[id]` (the `id < 0` test was added by fix 5273bb1). *)
 Definition fid_get {V} (m : fidmap V) (id : Z) : option V :=
   if Z.of_nat (length (fid_m m)) <=? id then None
   else if id <? 0 then None
@@ -168,8 +167,13 @@ Definition trie_build {V} (positions : list Z) (kvs : list (key * V)) : trie V :
   fold_left (fun t kv => trie_set t (fst kv) (snd kv)) kvs (trie_new positions).
 
 (* native twin (native/map.c trie_get): the bounds test is `if (j > fs.len) return NULL`, so j = fs.len reads the TrieNode
-   one past the index array.  Result None = that out-of-bounds read happens (behaviour then depends on adjacent memory). *)
-Fixpoint tn_get_native {V} (ps : list Z) (k : key) (n : tnode V) : option (option V) :=
+   one past the index array.
+   [tn_get_native_nospare]: the tree as it was before fix 0d2d3ac — None = that out-of-bounds read happens (behaviour then
+   depends on adjacent memory; finding 1403).  Kept as the recogniser of a regression.
+   [tn_get_native]: TrieTree.Set now allocates every index slice with one spare zeroed node behind len
+   (`make([]TrieNode, j+1, j+2)`), so the read at j = len lands on a node with Leaves == nil: not found.  Only an index that was
+   never allocated (len 0, nil buffer) still has nothing behind it. *)
+Fixpoint tn_get_native_nospare {V} (ps : list Z) (k : key) (n : tnode V) : option (option V) :=
   match ps with
   | [] => Some (match tn_leaves n with Some ls => assoc k ls | None => None end)
   | p :: ps' =>
@@ -177,6 +181,21 @@ Fixpoint tn_get_native {V} (ps : list Z) (k : key) (n : tnode V) : option (optio
     if (length (tn_index n) <? j)%nat then Some None
     else match nth_error (tn_index n) j with
          | None => None                                       (* j = len: out of bounds *)
+         | Some c => match tn_leaves c with
+                     | None => Some None
+                     | Some _ => tn_get_native_nospare ps' k c
+                     end
+         end
+  end.
+
+Fixpoint tn_get_native {V} (ps : list Z) (k : key) (n : tnode V) : option (option V) :=
+  match ps with
+  | [] => Some (match tn_leaves n with Some ls => assoc k ls | None => None end)
+  | p :: ps' =>
+    let j := bucket p k in
+    if (length (tn_index n) <? j)%nat then Some None
+    else match nth_error (tn_index n) j with
+         | None => match tn_index n with [] => None | _ => Some None end     (* j = len: the spare zeroed node *)
          | Some c => match tn_leaves c with
                      | None => Some None
                      | Some _ => tn_get_native ps' k c
@@ -274,15 +293,40 @@ Fixpoint ideal_scan {V} (kvs : list (key * V)) (count : Z) (pos : nat) (minn min
 Definition ideal_pos {V} (maxlen : Z) (kvs : list (key * V)) : option nat :=
   ideal_scan kvs (Z.of_nat (length kvs)) (Z.to_nat maxlen) 10 1 None.
 
+(* position with the smallest average bucket size whatever its value (`if f < best { best = f; bestPos = i }`, best = count+1
+   at first); only consulted when no ideal position exists, i.e. when the scan was not cut short by the `min == 1` break *)
+Fixpoint best_scan {V} (kvs : list (key * V)) (count : Z) (pos : nat) (bn bd : Z) (best : option nat) : option nat :=
+  match pos with
+  | O => best
+  | S i =>
+    let l := Z.of_nat (distinct_at i kvs) in
+    if rat_lt count l bn bd then best_scan kvs count i count l (Some i) else best_scan kvs count i bn bd best
+  end.
+
+Definition best_pos {V} (maxlen : Z) (kvs : list (key * V)) : option nat :=
+  best_scan kvs (Z.of_nat (length kvs)) (Z.to_nat maxlen) (Z.of_nat (length kvs) + 1) 1 None.
+
+(* hashMapSafe: caching.HashMap cannot hold a key whose DJB hash is 0 and its native twin mis-hashes bytes >= 0x80 *)
+Definition hash_map_safe (k : key) : bool := forallb (fun c => c <? 128) k && negb (djb k =? 0).
+
 Definition load_factor : nat := 4.
 
-Definition fnm_build {V} (m : fnmap V) : fnmap V :=
+(* position of the trie that Build constructs, None = hash path.
+   [fallback] = true: the code since fix bd82c3d (no ideal position but some key is not hash-map safe: trie on the best position);
+   [fallback] = false: the code before the fix (findings 1401 / 1402), kept as the recogniser of a regression. *)
+Definition build_pos {V} (fallback : bool) (maxlen : Z) (kvs : list (key * V)) : option nat :=
+  match ideal_pos maxlen kvs with
+  | Some p => Some p
+  | None => if fallback && negb (forallb (fun kv => hash_map_safe (fst kv)) kvs) then best_pos maxlen kvs else None
+  end.
+
+Definition fnm_build_gen {V} (fallback : bool) (m : fnmap V) : fnmap V :=
   match fn_all m with
   | [] => m
   | _ =>
     (* `empty = v.Val` is only assigned inside the loop over positions: never when maxKeyLength = 0 *)
     let empty := if 0 <? fn_maxlen m then assoc [] (fn_all m) else None in
-    match ideal_pos (fn_maxlen m) (fn_all m) with
+    match build_pos fallback (fn_maxlen m) (fn_all m) with
     | Some p =>
       let t := trie_build [Z.of_nat p] (fn_all m) in
       let t := match empty with Some e => Trie (t_count t) (t_positions t) (Some e) (t_root t) | None => t end in
@@ -296,6 +340,9 @@ Definition fnm_build {V} (m : fnmap V) : fnmap V :=
       FnMap (fn_maxlen m) (fn_all m) (FHash T)
     end
   end.
+
+Definition fnm_build {V} (m : fnmap V) : fnmap V := fnm_build_gen true m.
+Definition fnm_build_prefix {V} (m : fnmap V) : fnmap V := fnm_build_gen false m.      (* before fix bd82c3d *)
 
 (* FieldNameMap.Get; None at top level = the Go code would not terminate (never happens, see fnm_get_build) *)
 Definition fnm_get {V} (m : fnmap V) (k : key) : option (option V) :=
